@@ -4,7 +4,9 @@ P=$1; ID=$2; T=${3:-quick}
 cd /repo || exit 2
 git diff --quiet || { echo "/repo not clean"; exit 2; }
 git apply "$P" 2>/dev/null || git apply --3way "$P" 2>/dev/null || { echo "patch does not apply"; exit 3; }
+cp /verif/evidence/$ID.json /tmp/seedtest-evidence.json 2>/dev/null
 /verif/check $ID $T > /tmp/seedtest.out 2>&1; rc=$?
+cp /tmp/seedtest-evidence.json /verif/evidence/$ID.json 2>/dev/null; rm -f /verif/replays/*.json
 git reset -q --hard HEAD; git clean -fdq
 grep -E "VIOLATION|KNOWN-FINDING|INCONCLUSIVE|violated:" /tmp/seedtest.out | cut -c1-300 | head -12
 echo "exit=$rc"
